@@ -501,6 +501,11 @@ CATALOGUE['C13'] += [
   (F, 'R-SCANEOF', 'camxfiles/wind/Read.py', "            if not self.rffile.next():\n                raise ValueError('End of file before a second time header; ' +\n                                 'the time step cannot be determined')\n", "            self.rffile.next()\n"),
 ]
 
+CATALOGUE['C08'] += [
+  (F, 'R-BYTEORDER', 'camxfiles/wind/Write.py', "        lstag = np.array(ncffile.LSTAGGER, ndmin=1).astype('>i')\n", "        lstag = ncffile.LSTAGGER\n"),
+  (S, None, 'camxfiles/wind/Write.py', "        lstag = np.array(ncffile.LSTAGGER, ndmin=1).astype('>i')\n", "        lstagval = ncffile.LSTAGGER\n        lstag = np.array([lstagval], dtype='>i')\n"),
+]
+
 def _findings(prop, overlay):
     warnings.simplefilter('ignore')
     mod = importlib.import_module('pncstatic.rules.%s' % prop.lower())
